@@ -422,7 +422,7 @@ func ordinalInstr(top *ssa.Function, target ssa.Instruction) int {
 // output channel carry in-memory batches only; the datastore iterators stay owned by the
 // resolver goroutine, whose deferred batcher.close stops every one of them.
 func ruleBottomUpOwnership(e *Engine, r *Reporter) {
-	r.Rule("bottom-up-owner-stops", "internal/check: batcher.flush sends only in-memory (static) iterators, batcher.close stops every source iterator it is given, and each bottom-up set-operation resolver defers batcher.close with its source iterators", 5)
+	r.Rule("bottom-up-owner-stops", "internal/check: batcher.flush sends only in-memory (static) iterators, batcher.close stops every source iterator it is given, and each bottom-up set-operation resolver defers batcher.close with its source iterators", 3)
 	fl := e.Func("internal/check", "batcher.flush")
 	okStatic, n := true, 0
 	eachInstr(fl, false, func(in ssa.Instruction) {
